@@ -8,7 +8,7 @@ import numpy as np
 from hypothesis import strategies as st
 
 from .. import gen
-from ..harness import Clause, Prop, require
+from ..harness import Clause, Prop, require, rt
 
 BUILTIN = [("replacement", None), ("replacement", "by_label"), ("single_pass", None),
            ("dynamic", None), ("dynamic", "by_label")]
@@ -40,6 +40,8 @@ def _support(draw, vals, spanning=False):
         sup["thresholds"] = draw(gen.threshold_values(vals, draw(st.integers(1, 4)), allow_inf=False))
     if kind == "nb_points":
         sup["nb_points"] = draw(st.integers(4, 12) if spanning else st.integers(2, 12))
+    elif kind != "nothing" and not spanning and draw(st.booleans()):
+        sup["nb_points"] = draw(st.integers(0, 12))  # supplied points AND nb_points
     return sup
 
 
@@ -98,7 +100,7 @@ def check_real(case):
 
     s = _mk(case["o"])
     cfg = BootstrapConfig(nb_samples=case["nb"], bootstrap_method=case["ci"],
-                          sampling_method=case["method"], stratified_sampling=case["strat"])
+                          sampling_method=rt(case["method"]), stratified_sampling=rt(case["strat"]))
     np.random.seed(case["seed"])
     ctx = (f"roc_with_ci sampler={case['method']}/{case['strat']} ci={case['ci']} alpha={case['alpha']!r} "
            f"support={case['sup']} seed={case['seed']}")
@@ -106,6 +108,34 @@ def check_real(case):
     wellformed(c, s, ctx, unit_interval=True)
     xs = {"fpr": c.fpr, "far": c.fpr, "fnr": c.fnr, "frr": c.fnr, "tpr": 1 - c.fnr, "tnr": 1 - c.fpr}[case["x_axis"]]
     require(bool(np.all(np.diff(np.asarray(xs)) >= 0)), "band:x-not-monotone", ctx)
+    # replay under the same seed: pointwise bootstrap intervals of (FNR at the threshold set at the
+    # curve's FPR, FPR at the threshold set at the curve's FNR) with the original's metric as the
+    # estimate, rule of three at rates of exactly 0 / 1, envelope over covering rectangles
+    fnr, fpr = np.asarray(c.fnr, dtype=float), np.asarray(c.fpr, dtype=float)
+
+    def pointwise(sample):
+        return np.stack([sample.fnr(sample.threshold_at_fpr(fpr)), sample.fpr(sample.threshold_at_fnr(fnr))], axis=0)
+
+    np.random.seed(case["seed"])
+    joint = np.asarray(s.bootstrap_ci(metric=pointwise, alpha=case["alpha"], config=cfg), dtype=float)
+    if not np.isnan(joint).any():
+        o = case["o"]
+        alpha = case["alpha"]
+        ok = False
+        for nf, np_ in {(len(o["pos"]), len(o["neg"])), (len(o["pos"]) + o["ep"], len(o["neg"]) + o["en"])}:
+            cf, cp = joint[0].copy(), joint[1].copy()
+            for arr, p, n_ in ((cf, fnr, nf), (cp, fpr, np_)):
+                for i in range(len(p)):
+                    if p[i] == 0.0:
+                        arr[i] = [0.0, 1 - math.pow(alpha, 1 / n_)]
+                    elif p[i] == 1.0:
+                        arr[i] = [math.pow(alpha, 1 / n_), 1.0]
+            if (np.allclose(_envelope(fnr, cf, cp), c.fpr_ci, rtol=0, atol=1e-12)
+                    and np.allclose(_envelope(fpr, cp, cf), c.fnr_ci, rtol=0, atol=1e-12)):
+                ok = True
+        require(ok, "band:not-the-envelope-of-the-bootstrap-intervals",
+                lambda: f"{ctx}: fnr band {np.asarray(c.fnr_ci).tolist()[:4]}... differs from the envelope of the "
+                        f"pointwise {case['ci']} intervals replayed under the same seed")
     return dict(nontrivial=case["nb"] >= 5, labels=[f"sup:{case['sup']['kind']}", f"ci:{case['ci']}",
                                                     f"sampler:{case['method']}/{case['strat']}"])
 
